@@ -301,6 +301,11 @@ class Session:
             elif fault == "garbage":
                 return http_response(200, b"\x06\x01", "application/pairing+tlv8"), False
             items, shared, acc_pub = hap.pv_m2(ident, eph_seed, ios_pub, **kw)
+            if fault == "bad-tag":
+                # well-formed M2 whose encrypted part does not open (garbled on the way, an accessory still booting): no error item anywhere
+                items = [(t, (bytes(v[:-1]) + bytes([v[-1] ^ 0x01])) if t == hap.T_ENC else v) for t, v in items]
+            elif fault == "short-key":
+                items = [(t, bytes(v[:31]) if t == hap.T_PK else v) for t, v in items]  # a public key that is not 32 bytes long
             if callable(fault):
                 items = fault(items)
             if isinstance(fault, dict) and fault.get("m2") is not None:
